@@ -7,18 +7,21 @@
 
 static const char *const KINDS[] = { "DISPATCH_APPLY_AUTO", "global default queue", "serial queue", "concurrent queue",
 	"concurrent queue targeting a serial queue", "concurrent queue with a racing barrier_async", "concurrent queue narrowed to width 2",
-	"concurrent queue narrowed to width 2, iterations block for 1 virtual ms (maximal overlap without preemption)" };
-enum { K_AUTO, K_GLOBAL, K_SERIAL, K_CONC, K_CONC_SERIAL, K_CONC_BARRIER, K_NARROW, NKINDS, K_NARROW_SLOW = NKINDS };
+	"concurrent queue narrowed to width 2, iterations block for 1 virtual ms (maximal overlap without preemption)",
+	"serial queue on which an item is running (blocked for 1 virtual ms) when dispatch_apply is called",
+	"concurrent queue on which a barrier item is running (blocked for 1 virtual ms) when dispatch_apply is called" };
+enum { K_AUTO, K_GLOBAL, K_SERIAL, K_CONC, K_CONC_SERIAL, K_CONC_BARRIER, K_NARROW, NKINDS, K_NARROW_SLOW = NKINDS, K_BUSY_SERIAL, K_BUSY_BARRIER };
 static const int NS[] = { 0, 1, 2, 3, 5 };
 #define NN 5
 #define NPLAIN (NKINDS * NN)
 static const int NESTED_KINDS[] = { K_AUTO, K_GLOBAL, K_SERIAL, K_CONC };
 #define NNESTED 4
 #define NSLOW 3   // n = 2, 3, 5 on the slow narrow queue
+#define NBUSY 4   // (busy serial, busy barrier) x n = 1, 2
 #define BARRIER_ITEM 900
 
 static dispatch_queue_t g_q, g_bottom;
-static int g_kind, g_n, g_nested, g_barrier_done;
+static int g_kind, g_n, g_nested, g_barrier_done, g_busy_started;
 
 static void inner_fn(void *ctx, size_t j)
 {
@@ -41,15 +44,17 @@ static void outer_fn(void *ctx, size_t i)
 static void post_fn(void *ctx) { (void)ctx; vx_ev(EV_NOTE, 7, 0); }
 static void barrier_fn(void *ctx) { (void)ctx; item_body(BARRIER_ITEM); g_barrier_done = 1; }
 static void racer(void *arg) { (void)arg; vx_ev(EV_CALL, BARRIER_ITEM, 0); dispatch_barrier_async_f(g_q, NULL, barrier_fn); vx_ev(EV_RET, BARRIER_ITEM, 0); }
+static void busy_fn(void *ctx) { (void)ctx; vx_ev(EV_START, BARRIER_ITEM, 0); g_busy_started = 1; vx_sleep_ns(1 * MS); vx_ev(EV_END, BARRIER_ITEM, 0); g_barrier_done = 1; }
 static void warm_fn(void *c) { *(int *)c = 1; }
 static void warm(dispatch_queue_t q) { int d = 0; dispatch_async_f(q, &d, warm_fn); int *a[2] = { &d, (int *)(intptr_t)1 }; vx_wait_until(pred_int_ge, a); }
 
-static int nvariants(void) { return NPLAIN + NNESTED + NSLOW; }
+static int nvariants(void) { return NPLAIN + NNESTED + NSLOW + NBUSY; }
 static void decode(int v, int *kind, int *n, int *nested)
 {
 	if (v < NPLAIN) { *kind = v / NN; *n = NS[v % NN]; *nested = 0; }
 	else if (v < NPLAIN + NNESTED) { *kind = NESTED_KINDS[v - NPLAIN]; *n = 2; *nested = 1; }
-	else { *kind = K_NARROW_SLOW; *n = NS[2 + v - NPLAIN - NNESTED]; *nested = 0; }
+	else if (v < NPLAIN + NNESTED + NSLOW) { *kind = K_NARROW_SLOW; *n = NS[2 + v - NPLAIN - NNESTED]; *nested = 0; }
+	else { int b = v - NPLAIN - NNESTED - NSLOW; *kind = b < 2 ? K_BUSY_SERIAL : K_BUSY_BARRIER; *n = 1 + b % 2; *nested = 0; }
 }
 static void describe(int v, char *b, size_t len)
 {
@@ -60,13 +65,13 @@ static void describe(int v, char *b, size_t len)
 static void run(int v)
 {
 	decode(v, &g_kind, &g_n, &g_nested);
-	g_barrier_done = 0;
+	g_barrier_done = 0; g_busy_started = 0;
 	vx_set_horizon(12ull * 1000000000ull);
 	g_bottom = NULL;
 	switch (g_kind) {
 	case K_AUTO: case K_GLOBAL: g_q = dispatch_get_global_queue(0, 0); break;
-	case K_SERIAL: g_q = dispatch_queue_create("vx.apply", NULL); break;
-	case K_CONC: case K_CONC_BARRIER: g_q = dispatch_queue_create("vx.apply", DISPATCH_QUEUE_CONCURRENT); break;
+	case K_SERIAL: case K_BUSY_SERIAL: g_q = dispatch_queue_create("vx.apply", NULL); break;
+	case K_CONC: case K_CONC_BARRIER: case K_BUSY_BARRIER: g_q = dispatch_queue_create("vx.apply", DISPATCH_QUEUE_CONCURRENT); break;
 	case K_CONC_SERIAL:
 		g_bottom = dispatch_queue_create("vx.bottom", NULL);
 		g_q = dispatch_queue_create_with_target("vx.apply", DISPATCH_QUEUE_CONCURRENT, g_bottom); break;
@@ -77,6 +82,11 @@ static void run(int v)
 	int th = -1;
 	vx_focus_begin();
 	if (g_kind == K_CONC_BARRIER) th = vx_thread(racer, NULL);
+	if (g_kind == K_BUSY_SERIAL || g_kind == K_BUSY_BARRIER) {
+		if (g_kind == K_BUSY_SERIAL) dispatch_async_f(g_q, NULL, busy_fn); else dispatch_barrier_async_f(g_q, NULL, busy_fn);
+		int *a[2] = { &g_busy_started, (int *)(intptr_t)1 };
+		vx_wait_until(pred_int_ge, a);
+	}
 	vx_ev(EV_CALL, 1, g_n);
 	dispatch_apply_f((size_t)g_n, g_kind == K_AUTO ? DISPATCH_APPLY_AUTO : g_q, NULL, outer_fn);
 	vx_ev(EV_RET, 1, 0);
@@ -97,7 +107,7 @@ static int check(int v, const vx_log *l, char *msg, size_t len)
 	int kind, n, nested; decode(v, &kind, &n, &nested);
 	int ret = ev_first(l, EV_RET, 1);
 	if (ret < 0) FAILF(msg, len, "dispatch_apply did not return");
-	int serial = (kind == K_SERIAL || kind == K_CONC_SERIAL);
+	int serial = (kind == K_SERIAL || kind == K_CONC_SERIAL || kind == K_BUSY_SERIAL);
 	int prev_end = -1;
 	// no index outside 0..n-1, each exactly once
 	for (uint32_t i = 0; i < l->n; i++) {
@@ -136,12 +146,12 @@ static int check(int v, const vx_log *l, char *msg, size_t len)
 			if (e->kind == EV_END) open_n--;
 		}
 	}
-	if (kind == K_CONC_BARRIER) {
+	if (kind == K_CONC_BARRIER || kind == K_BUSY_SERIAL || kind == K_BUSY_BARRIER) {
 		int bs = ev_first(l, EV_START, BARRIER_ITEM), be = ev_first(l, EV_END, BARRIER_ITEM);
 		if (bs < 0 || be < 0 || ev_count(l, EV_START, BARRIER_ITEM) != 1) FAILF(msg, len, "the racing barrier item did not run exactly once");
 		for (int i = 0; i < n; i++) {
 			int st = ev_first(l, EV_START, 100 * (i + 1)), en = ev_first(l, EV_END, 100 * (i + 1));
-			if (st < be && bs < en) FAILF(msg, len, "barrier item [#%d,#%d] overlapped apply iteration %d [#%d,#%d] on the concurrent queue", bs, be, i, st, en);
+			if (st < be && bs < en) FAILF(msg, len, "%s [#%d,#%d] overlapped apply iteration %d [#%d,#%d] on the %s queue", kind == K_BUSY_SERIAL ? "the running item" : "barrier item", bs, be, i, st, en, kind == K_BUSY_SERIAL ? "serial" : "concurrent");
 		}
 	}
 	return 0;
